@@ -7,8 +7,8 @@ import props.C09 as C09
 
 MODEL = "C17"
 PROP_FILES = ["Props/C17.v"]
-RULE = ("one DefaultApplicationConfig application run on every sequence of 2 (quick) / 3 (thorough) command lines drawn from 14 line "
-        "kinds per tree (valid, with arguments, unknown command, help <cmd>, <cmd> -h, help <cmd> --num=abc, version, unknown "
+RULE = ("one DefaultApplicationConfig application run on every sequence of 2 (quick) / 3 (thorough) command lines drawn from 15 line "
+        "kinds per tree (valid, with arguments, unknown command, help <cmd>, <cmd> -h, help <cmd> --num=abc, <cmd> --num=abc -h (the help resolver's lenient re-parse raises), version, unknown "
         "option, too many arguments, handler raising), random sequences of 4-6, each run compared with a freshly built application; "
         "all orders of constructing the predefined table styles (+ customisations) then rendering one table with each; every "
         "component rendered twice; non-trivial = runs of different kinds in one history; distinct by (tree, lines)")
@@ -17,12 +17,29 @@ TRUSTED = ["'rendering twice gives identical output' is trivially true of a func
 ASSUMPTIONS = []
 
 
+def ensure_num(t):
+    """the first command the pool addresses gets a typed option (--num, INTEGER) unless the name is taken in its subtree:
+    'help <cmd> --num=abc' then makes the lenient re-parse of the help resolver RAISE (seeded change C17-d)"""
+    def names(c):
+        out = [o["long"] for o in c["opts"]] + [o["short"] for o in c["opts"] if o["short"]]
+        for s_ in c["subs"]:
+            out += names(s_)
+        return out
+    for c in t["cmds"][1:]:
+        if c["enabled"] and not c["anonymous"]:
+            taken = names(c) + [o["long"] for o in t["opts"]] + [o["short"] for o in t["opts"] if o["short"]]
+            if "num" not in taken and "u" not in taken:
+                c["opts"] = list(c["opts"]) + [G.opt("num", "u", G.REQ_V | G.O_INT, None)]
+            return t
+    return t
+
+
 def line_pool(t, rng):
     ps = C09.paths(t)
     lines = [[], ["zz"], ["--version"], ["help"]]
     for p, args in ps[:3]:
         vals = ["x"] * sum(1 for a in args if a["flags"] & G.A_REQ)
-        lines += [p + vals, p + vals + ["-h"], ["help"] + p, ["help"] + p + ["--num=abc"], p + vals + ["--nosuch"],
+        lines += [p + vals, p + vals + ["-h"], ["help"] + p, ["help"] + p + ["--num=abc"], p + vals + ["--num=abc", "-h"], p + vals + ["--nosuch"],
                   p + vals + ["e1", "e2", "e3", "e4"], p + vals + ["boom"], p + ["--num=abc"], p + vals + ["-V"]]
     out, seen = [], set()
     for l in lines:
@@ -40,8 +57,8 @@ def gen(rng, tier, info):
     depth = {"quick": 2, "thorough": 3, "search": 2}[tier]
     cases = []
     for ti in range(ntrees):
-        t = C09.default_tree(rng, 2)
-        pool = line_pool(t, rng)[:16]
+        t = ensure_num(C09.default_tree(rng, 2))
+        pool = line_pool(t, rng)[:17]
         for k in range(2, depth + 1):
             for seq in itertools.product(range(len(pool)), repeat=k):
                 cases.append({"k": 0, "tree": t, "lines": [pool[i] for i in seq]})
